@@ -362,7 +362,7 @@ def judge(ctx, comp, sep, exp, got, back, obsl, hist, where):
     ctx.probe("roundtrip_ok")
     if back is not None:
         probs = wellformed.any_problems(back)
-        if probs and probs[0][0] not in ("chain_maps",):
+        if probs:
             ctx.violation("c12.wellformed", comp, probs[0][0], probs[0][1])
         # the subsequent error analysis of the imports equals that of the originals (names may differ by the separator rule only)
         for x, y in list(zip(obsl, back))[:3]:
